@@ -123,7 +123,12 @@ func (pipeline) Execute(scAny any, keepLog bool) *core.Outcome {
 		if c.Op.PES != nil {
 			spec = *c.Op.PES
 		}
-		u := &wantUnit{call: c.I, pid: pid, payload: c.Payload, pes: spec.ToAstits(), af: AFToAstits(c.Op.AF), sid: spec.StreamID}
+		wantPES := spec.ToAstits()
+		if oh := wantPES.OptionalHeader; oh != nil && oh.HasPrivateData && len(oh.PrivateData) < 16 {
+			// PES_private_data is a 16-byte field: shorter caller data travel zero-padded
+			oh.PrivateData = append(append([]byte{}, oh.PrivateData...), make([]byte, 16-len(oh.PrivateData))...)
+		}
+		u := &wantUnit{call: c.I, pid: pid, payload: c.Payload, pes: wantPES, af: AFToAstits(c.Op.AF), sid: spec.StreamID}
 		if _, ok := want[pid]; !ok {
 			order = append(order, pid)
 		}
